@@ -16,7 +16,10 @@ def lean_terms(case, ex):
         scal = 1
         tensors = []
         for f in t["factors"]:
-            if f[0] == "s":
+            if f[0] == "s" and t["kind"] == "take":
+                # a scalar operand of take(): a rank-0 operand that is always present
+                tensors.append({"name": "scalar_" + f[1], "ranks": [], "pts": [[[], case["env"][f[1]]]]})
+            elif f[0] == "s":
                 scal *= case["env"][f[1]]
             else:
                 ranks = [idx[0][1].upper() for idx in f[2]]
@@ -37,7 +40,10 @@ def lean_request(case, rec, ex):
         scal = 1
         tensors = []
         for f in t["factors"]:
-            if f[0] == "s":
+            if f[0] == "s" and t["kind"] == "take":
+                # a scalar operand of take(): a rank-0 operand that is always present
+                tensors.append({"name": "scalar_" + f[1], "ranks": [], "pts": [[[], case["env"][f[1]]]]})
+            elif f[0] == "s":
                 scal *= case["env"][f[1]]
             else:
                 ranks = [idx[0][1].upper() for idx in f[2]]
@@ -119,7 +125,13 @@ def check_records(ctx, recs, search_seed=0):
         if not real_ok:
             sig = "wrong-values"
             f = None
-            if preds and not a["in_proved_class"] and ex["ok"] and not ex["problems"]:
+            # a known finding explains the failure only if the emitted program computes exactly what the Lean model of the emitted nest
+            # computes (Nest.run: union co-iteration, the selected operand added unconditionally) - the deviation from the Einsum is then
+            # the one the Lean counterexamples describe; any other deviation is a different defect
+            # (required for single-term Einsums; in a sum the model nest keeps visiting the coordinates of a term whose
+            # intersection is already empty, which adds nothing for products but differs from the emitted union for take)
+            single = len(case["eins"][0]["terms"]) == 1
+            if preds and not a["in_proved_class"] and ex["ok"] and not ex["problems"] and (not single or (real == run_ and a["wf"] and skel_ok)):
                 for p in preds:
                     f = ctx.match_finding({"predicates": {p}, "signature": "emitted-nest-differs-from-einsum"})
                     if f:
